@@ -34,6 +34,7 @@ type StandardClass struct {
 	precedence      []slip.Symbol
 	defaultInitArgs map[string]slip.Object
 	allDefaults     []*defaultInitArg
+	classSlots      map[string]isStandardClass
 	initArgs        map[string][]*SlotDef // map with keys of initargs, one SlotDef for each slot filled
 	initForms       map[string]*SlotDef
 	methods         map[string]*slip.Method
@@ -398,9 +399,11 @@ func (c *StandardClass) mergeSupers() bool {
 	}
 	c.initArgs = map[string][]*SlotDef{}
 	c.initForms = map[string]*SlotDef{}
+	c.classSlots = map[string]isStandardClass{}
 	for i := len(c.inherit) - 1; 0 <= i; i-- {
 		if sc, ok := c.inherit[i].(isStandardClass); ok {
 			for _, sd := range sc.slotDefMap() {
+				c.setClassSlotOwner(sd, sc)
 				for _, ia := range sd.initargs {
 					c.addInitArg(string(ia), sd)
 				}
@@ -411,6 +414,7 @@ func (c *StandardClass) mergeSupers() bool {
 		}
 	}
 	for _, sd := range c.slotDefs {
+		c.setClassSlotOwner(sd, c)
 		for _, ia := range sd.initargs {
 			c.addInitArg(string(ia), sd)
 		}
@@ -516,6 +520,23 @@ func (c *StandardClass) addDefaults(defaults map[string]slip.Object) {
 // classes it inherits from, those of the most specific class first.
 func (c *StandardClass) allDefaultInitArgs() []*defaultInitArg {
 	return c.allDefaults
+}
+
+// setClassSlotOwner notes that the slot defined by sd of class owner hides
+// any definition of the slot by a less specific class. When allocated in the
+// class, the slot is shared by owner and all the classes that inherit sd.
+func (c *StandardClass) setClassSlotOwner(sd *SlotDef, owner isStandardClass) {
+	if sd.classStore {
+		c.classSlots[sd.name] = owner
+	} else {
+		delete(c.classSlots, sd.name)
+	}
+}
+
+// classSlotOwners returns a map of the names of the class allocated slots,
+// inherited ones included, to the class that holds the value of the slot.
+func (c *StandardClass) classSlotOwners() map[string]isStandardClass {
+	return c.classSlots
 }
 
 func (c *StandardClass) precedenceList() []slip.Symbol {
